@@ -30,6 +30,7 @@ template <class WS> static void box_variant(const Program& P, unsigned compact, 
     run_threads(P, doop, [&] { doop(Op{"begin", {}}); attach(); }, detach);
     doop(Op{"begin", {}}); t_id = 9; for (auto& o : P.fini) doop(o); t_id = 0; } }
 typedef fc::wait_strategy::backoff<cds::backoff::yield> ws_bk; typedef fc::wait_strategy::empty ws_empty;
+static const bool s_post_store = (vs::g_post_store_points = true);   // see vsched.h
 DRV_VARIANT(v_b_c1p1, "box_backoff_c1_p1") { box_variant<ws_bk>(P, 1, 1); }
 DRV_VARIANT(v_b_c1p2, "box_backoff_c1_p2") { box_variant<ws_bk>(P, 1, 2); }
 DRV_VARIANT(v_b_c2p1, "box_backoff_c2_p1") { box_variant<ws_bk>(P, 2, 1); }
